@@ -499,7 +499,9 @@ def check_binary(cx, op, A, B, oa, ob, fams, P, va, vb, band, rng, nsamp):
         out.cls("sampled:" + op)
 
     # (c) bounding box of the result contains the members and the samples
-    if not trivial:
+    #     (an operand returned unchanged is covered by the unary checks)
+    same = R is A or R is B or cx.lazy_mode  # (the eager twin covers derived quantities)
+    if not trivial and not same:
         st, bb = cx.call(f"AABB-of-{cell}", lambda: R.AABB)
         if st == "ok":
             lo = np.array(list(map(float, bb[0])))
@@ -555,7 +557,6 @@ def check_binary(cx, op, A, B, oa, ob, fams, P, va, vb, band, rng, nsamp):
             return
 
     # (d) distance from the result (an operand returned unchanged is covered by the unary checks)
-    same = R is A or R is B or cx.lazy_mode  # (the eager twin covers derived quantities)
     if not trivial and not same:
         sel = list(rng.permutation(len(P))[:25])
         da, db = np.zeros(len(P)), np.zeros(len(P))
